@@ -931,7 +931,7 @@ var startSentExempt = map[string]string{
 }
 
 func RStartSent(c *core.Ctx) {
-	c.Rule("R-STARTSENT", "wherever a start offset handed in through FindStringMatchStartingAt / FindRunesMatchStartingAt / Replace / ReplaceFunc (followed through the calls that pass it on unchanged) is compared with a constant and the branch taken goes on to ask RightToLeft() for the default start, the comparison is false for offset 0: only a negative offset stands for \"no start given\"", 2)
+	c.Rule("R-STARTSENT", "wherever a start offset handed in through FindStringMatchStartingAt / FindRunesMatchStartingAt / Replace / ReplaceFunc (followed through the calls that pass it on unchanged) is compared with a constant and the branch taken goes on to ask RightToLeft() for the default start (or calls an entry point that searches from the default start), the comparison is false for offset 0: only a negative offset stands for \"no start given\"", 2)
 	p := c.P
 	rtl := p.SSAFunc(p.LookupFunc("", "Regexp.RightToLeft"))
 	if rtl == nil {
@@ -1025,6 +1025,30 @@ func RStartSent(c *core.Ctx) {
 	for fn := range seenFn {
 		fns = append(fns, fn)
 	}
+	// entry points that search from the DEFAULT start: they hand a negative constant to a
+	// parameter that carries the caller's offset elsewhere (FindStringMatch, FindRunesMatch)
+	defaultEntry := map[*ssa.Function]bool{}
+	for _, fn := range rootFns {
+		for _, b := range fn.Blocks {
+			for _, ins := range b.Instrs {
+				call, ok := ins.(ssa.CallInstruction)
+				if !ok {
+					continue
+				}
+				cal := call.Common().StaticCallee()
+				if cal == nil || core.FnPkgPath(cal) != core.PkgRoot {
+					continue
+				}
+				for i, a := range call.Common().Args {
+					if k, ok := a.(*ssa.Const); ok && i < len(cal.Params) && tainted[cal.Params[i]] && k.Value != nil && k.Value.Kind() == constant.Int {
+						if v, _ := constant.Int64Val(k.Value); v < 0 {
+							defaultEntry[fn] = true
+						}
+					}
+				}
+			}
+		}
+	}
 	sort.Slice(fns, func(i, j int) bool { return core.SSAName(fns[i]) < core.SSAName(fns[j]) })
 	for _, fn := range fns {
 		name := core.SSAName(fn)
@@ -1080,8 +1104,10 @@ func RStartSent(c *core.Ctx) {
 					}
 					seen[x] = true
 					for _, ins := range x.Instrs {
-						if call, ok := ins.(ssa.CallInstruction); ok && call.Common().StaticCallee() == rtl {
-							return true
+						if call, ok := ins.(ssa.CallInstruction); ok {
+							if cal := call.Common().StaticCallee(); cal != nil && (cal == rtl || defaultEntry[cal]) {
+								return true
+							}
 						}
 					}
 					for _, sc := range x.Succs {
